@@ -72,6 +72,8 @@ def _(w, e):
         obj = need(w, root["h"])
     elif root["r"] == "occ":
         obj = HRef.from_sequence([need(w, h) for h in root["path"]])
+    elif root["r"] == "opin":
+        obj = need(w, root["i"]).pins[need(w, root["p"])]
     else:
         obj = [need(w, h) for h in root["hs"]]
     fn = SPECS[e["fn"]][0]
@@ -121,10 +123,26 @@ class FGen:
                 return self()
             p = r.choice(el.occ)
             hs = [w.handle_of(i) for i in p]
+            d = p[-1].reference
+            if d is not None and r.random() < 0.4:
+                # a reference to something INSIDE the occurrence: a port, a cable, one of their bits
+                items = [(q,) for q in d.ports] + [(c,) for c in d.cables]
+                items += [(q, pin) for q in d.ports for pin in q.pins] + [(c, wr) for c in d.cables for wr in c.wires]
+                if items:
+                    hs = hs + [w.handle_of(x) for x in r.choice(items)]
             if any(h is None for h in hs):
                 return self()
             root = {"r": "occ", "path": hs}
-        elif x < 0.4:
+        elif x < 0.34:
+            insts = [h for h in w.order if kind_of(w.handles[h]) == "instance" and len(w.handles[h].pins)]
+            if not insts:
+                return self()
+            ih = r.choice(insts)
+            ph = w.handle_of(r.choice(list(w.handles[ih].pins.keys())))
+            if ph is None:
+                return self()
+            root = {"r": "opin", "i": ih, "p": ph}
+        elif x < 0.42:
             kind = r.choice(["definition", "instance", "library", "port", "cable"])
             c = [h for h in w.order if kind_of(w.handles[h]) == kind]
             if len(c) < 2:
@@ -147,6 +165,8 @@ class FGen:
         ev["pseed"] = r.randint(0, 10 ** 9)
         if root["r"] in ("h", "occ") and r.random() < 0.3:
             ev["via"] = "method"
+        if root["r"] == "opin" and name in ("netlists",):
+            pass
         return ev
 
 
@@ -217,7 +237,8 @@ class C13(Prop):
         # netlist or a reference to an instance (default INSIDE selection); everything reached another way
         # is matched by its full hierarchical name
         skip = None
-        if hier and isinstance(obj, HRef) and base.get("selection", sdn.INSIDE) == sdn.INSIDE:
+        if hier and isinstance(obj, HRef) and base.get("selection", sdn.INSIDE) == sdn.INSIDE \
+                and kind_of(obj.item) == "instance":
             skip = len(chain(obj))
 
         def value(e):
@@ -250,7 +271,9 @@ class C13(Prop):
         import random
         pr = random.Random(ev.get("pseed", 0))
         keep = set(i for i in Uset if pr.random() < 0.5)
-        res = run(filter=lambda e: ident(e) in keep)
+        # the callback answers like user callbacks do: any truthy / falsy value (re.match objects, counts, strings, None)
+        truthy, falsy = pr.choice([(True, False), (1, 0), ("x", ""), (object(), None), (True, None), (7, False)])
+        res = run(filter=lambda e: truthy if ident(e) in keep else falsy)
         if uniq(res, "filter") != keep:
             raise Violation("C13.filter_callback", disc, "filter= does not compose with the unfiltered result")
         # cache on/off (all functions): with the namespace plugin deregistered the same query gives the same set
@@ -280,6 +303,7 @@ class C13(Prop):
             pats.append((re.escape(v), True, True, "regex"))
             pats.append((re.escape(v.swapcase()), False, True, "regex_nocase"))
         pats.append(("zzz_nomatch", True, False, "nomatch"))
+        pats.append(("a[", True, True, "broken_regex"))      # not a regular expression: matches nothing, raises nothing
         for p, is_case, is_re, kind in pats:
             kw = {"patterns": p}
             if not is_case:
